@@ -40,8 +40,16 @@ def main():
     try:
         base.setup_loopback()
         ttls = {}
+        pair_sent = {}
 
         def script(qn, proto, nth, q):
+            if qn.startswith("pair"):
+                # numbered replies with a TTL of 1 s; transmissions 0 and 2 of this name are lost (the first client's first two
+                # tries), transmission 1 (the second client's) and 3 are answered
+                if nth in (0, 2):
+                    return [("drop",)]
+                pair_sent[(qn, nth)] = time.monotonic()
+                return [("reply", dnslib.build_reply(q, answers=[(qn, 1, 1, bytes([10, 66, 0, nth]))]), 0)]
             if qn.startswith("alias"):
                 # an upstream whose reply names ANOTHER question (same id): whatever the server makes of it, it must not
                 # turn into a cache entry for that other name
@@ -156,6 +164,37 @@ def main():
             if after[2] < 1:
                 leg.violation("C06/e2e/served-past-ttl", "%s: min TTL %d s, asked again %.2f s after the first query, upstream saw no new transmission (TTLs %s)" % (
                     name, m, after[1], after[3]), replay)
+        # ---- two clients ask the same question 0.1 s apart; the first one's upstream query is lost twice, so it is answered
+        # seconds later: what it is handed then must not be older than its TTL (1 s) -- not, say, what the other client got
+        for i in range(4 if thorough else 2):
+            name = "pair%d.c06.test" % i
+            got = {}
+
+            def late_client(tag, delay, name=name, got=got):
+                time.sleep(delay)
+                rs = dnslib.udp_query(SERVER, dnslib.build_query(rnd.randrange(65536), name, edns=1232), timeout=30.0)
+                got[tag] = (time.monotonic(), dnslib.parse(rs[0][0]) if rs else None)
+
+            ta, tb = threading.Thread(target=late_client, args=("A", 0.0)), threading.Thread(target=late_client, args=("B", 0.1))
+            ta.start()
+            tb.start()
+            ta.join(timeout=40)
+            tb.join(timeout=40)
+            for tag in ("A", "B"):
+                leg.eval()
+                t_recv, pr = got.get(tag, (None, None))
+                if pr is None or not pr.answers:
+                    leg.cls("concurrent-pair|%s|no-answer" % tag)
+                    continue
+                nth = pr.answers[0][3][3]
+                age = t_recv - pair_sent.get((name, nth), t_recv)
+                ttl = pr.answers[0][2]
+                leg.cls("concurrent-pair|%s|reply%d|%s" % (tag, nth, "fresh" if age <= 1.6 else "stale"))
+                leg.max("max_age_of_data_handed_to_a_delayed_client_ms", int(age * 1000))
+                if age > 1.6:
+                    leg.violation("C06/e2e/served-past-ttl/delayed-client-handed-another-clients-entry",
+                                  "%s client %s received the upstream's reply no. %d, which the upstream had sent %.2f s earlier with a TTL of 1 s (TTL as served: %d)" % (name, tag, nth, age, ttl),
+                                  {"engine": "c06-e2e", "name": name, "client": tag, "reply_no": nth, "age_s": age})
         # ---- replies that echo another question
         for i in range(6 if thorough else 3):
             alias, victim = "alias%d.c06.test" % i, "victim%d.c06.test" % i
